@@ -41,6 +41,9 @@ def Compat (sh : Labels → Nat) : VExpr → Prop
     (∀ a b, sig a = sig b → sh a = sh b) ∧ (∀ x ro s, f x ro = some s → sh s.1 = sh x.1) ∧ Compat sh l ∧ Compat sh r
   | .append l r => Compat sh l ∧ Compat sh r
   | .overTime _ key _ e => (∀ l, sh (key l) = sh l) ∧ Compat sh e
+  | .aggL key op e =>
+    (∀ l, sh (key l) = sh l) ∧
+    (∀ k ms x, (∀ m ∈ ms, key m.1 = k) → x ∈ op k ms → sh x.1 = sh k) ∧ Compat sh e
 
 theorem groupAgg_shard (sh : Labels → Nat) (key : Labels → Labels) (op : List Series → Int)
     (hk : ∀ l, sh (key l) = sh l) (i : Nat) (v : Vec) :
@@ -59,6 +62,70 @@ theorem groupAgg_shard (sh : Labels → Nat) (key : Labels → Labels) (op : Lis
   intro k hk'
   have hki : sh k = i := by simpa using (List.mem_filter.mp hk').2
   congr 2
+  rw [List.filter_filter]
+  apply List.filter_congr
+  intro s _
+  by_cases h : key s.1 = k
+  · have : sh s.1 = i := by rw [← hk s.1, h, hki]
+    simp [h, this]
+  · simp [h]
+
+theorem flatMap_ite_filter {α β : Type} (p : α → Bool) (g : α → List β) :
+    ∀ l : List α, (l.flatMap fun k => if p k then g k else []) = (l.filter p).flatMap g
+  | [] => rfl
+  | x :: xs => by
+    simp only [List.flatMap_cons, List.filter_cons]
+    cases hp : p x <;> simp [flatMap_ite_filter p g xs]
+
+theorem filter_flatMap' {α β : Type} (q : β → Bool) (g : α → List β) :
+    ∀ l : List α, (l.flatMap g).filter q = l.flatMap fun a => (g a).filter q
+  | [] => rfl
+  | x :: xs => by simp [List.flatMap_cons, List.filter_append, filter_flatMap' q g xs]
+
+theorem flatMap_congr' {α β : Type} (f g : α → List β) :
+    ∀ (l : List α), (∀ a ∈ l, f a = g a) → l.flatMap f = l.flatMap g
+  | [], _ => rfl
+  | x :: xs, h => by
+    simp only [List.flatMap_cons, h x (by simp)]
+    rw [flatMap_congr' f g xs (fun a ha => h a (List.mem_cons_of_mem _ ha))]
+
+theorem groupAggL_shard (sh : Labels → Nat) (key : Labels → Labels) (op : Labels → List Series → List Series)
+    (hk : ∀ l, sh (key l) = sh l)
+    (hop : ∀ k ms x, (∀ m ∈ ms, key m.1 = k) → x ∈ op k ms → sh x.1 = sh k) (i : Nat) (v : Vec) :
+    groupAggL key op (shardOf sh i v) = shardOf sh i (groupAggL key op v) := by
+  unfold groupAggL shardOf
+  have hkeys : (v.filter fun s => sh s.1 = i).map (fun s => key s.1) =
+      (v.map fun s => key s.1).filter (fun k => sh k = i) := by
+    rw [List.filter_map]
+    congr 1
+    apply List.filter_congr
+    intro s _
+    simp [hk]
+  rw [hkeys, nub_filter, filter_flatMap']
+  -- right-hand side: a group's outputs all have the shard of the group key
+  have hrhs : ((nub (v.map fun s => key s.1)).flatMap fun k =>
+        (op k (v.filter fun s => key s.1 = k)).filter fun s => decide (sh s.1 = i)) =
+      ((nub (v.map fun s => key s.1)).flatMap fun k =>
+        if decide (sh k = i) then op k (v.filter fun s => key s.1 = k) else []) := by
+    congr 1
+    funext k
+    by_cases hki : sh k = i
+    · simp only [hki, decide_true, if_true]
+      apply List.filter_eq_self.mpr
+      intro x hx
+      have := hop k _ x (fun m hm => by simpa using (List.mem_filter.mp hm).2) hx
+      simp [this, hki]
+    · simp only [hki, decide_false, Bool.false_eq_true, if_false]
+      apply List.filter_eq_nil_iff.mpr
+      intro x hx
+      have := hop k _ x (fun m hm => by simpa using (List.mem_filter.mp hm).2) hx
+      simp [this, hki]
+  rw [hrhs, flatMap_ite_filter]
+  -- left-hand side: the members of a group of shard i are all in shard i
+  apply flatMap_congr'
+  intro k hk'
+  have hki : sh k = i := by simpa using (List.mem_filter.mp hk').2
+  congr 1
   rw [List.filter_filter]
   apply List.filter_congr
   intro s _
@@ -186,6 +253,10 @@ theorem eval_shard (sh : Labels → Nat) (i : Nat) :
       exact eval_shard sh i e hc.2 s t'
     rw [this]
     exact groupAgg_shard sh key op hc.1 i _
+  | .aggL key op e, hc, s, t => by
+    simp only [eval]
+    rw [eval_shard sh i e hc.2.2 s t]
+    exact groupAggL_shard sh key op hc.1 hc.2.1 i _
 
 /-- every output series has the shard of some input series (of some timestamp) -/
 theorem eval_shard_of_input (sh : Labels → Nat) :
@@ -225,6 +296,13 @@ theorem eval_shard_of_input (sh : Labels → Nat) :
     rw [← hxk]
     simp only
     rw [← hzk, hc.1, hzy]
+  | .aggL key op e, hc, s, t, x, hx => by
+    simp only [eval, groupAggL, List.mem_flatMap, mem_nub, List.mem_map] at hx
+    obtain ⟨k, ⟨z, hz, hzk⟩, hxk⟩ := hx
+    obtain ⟨t', y, hy, hzy⟩ := eval_shard_of_input sh e hc.2.2 s t z hz
+    refine ⟨t', y, hy, ?_⟩
+    have := hc.2.1 k _ x (fun m hm => by simpa using (List.mem_filter.mp hm).2) hxk
+    rw [this, ← hzk, hc.1, hzy]
 
 /-- a list is a permutation of its parts by shard index -/
 theorem perm_shards (sh : Labels → Nat) (v : Vec) :
@@ -279,6 +357,12 @@ inductive FExpr where
       the many side's labels without the metric name, the `inc` labels taken from the one side -/
   | binMany (op : String) (on : Bool) (L inc : List String) (manyLeft : Bool) (f : Int → Int → Option Int)
       (many one : FExpr)
+  /-- `topk` / `bottomk` / `limitk` `by (L)` (`by_ = true`) or `without (L)`: of every group the
+      members selected by `keep` (which sees the whole group), with their own labels -/
+  | aggSel (op : String) (by_ : Bool) (L : List String) (param : String) (keep : List Series → Series → Bool) (e : FExpr)
+  /-- `count_values by/without (L) ("dst", e)`: one series per distinct value of a group, labelled
+      with the group key and `dst = <value>` -/
+  | countValues (by_ : Bool) (L : List String) (dst : String) (e : FExpr)
   /-- a range function over a matrix selector, `rate(m[5m])`, `max_over_time(m[1m])` …: for every
       series, a function `f` of its samples at the timestamps `ts t` of the window; the metric
       name is dropped when `drop` -/
@@ -314,6 +398,8 @@ def FExpr.WF : FExpr → Prop
   | .or_ _ _ l r => l.WF ∧ r.WF
   | .histQ _ _ e => e.WF
   | .labelFn name _ _ _ e => (name = "label_replace" ∨ name = "label_join") ∧ e.WF
+  | .aggSel op _ _ _ _ e => op ≠ "count_values" ∧ e.WF
+  | .countValues _ _ _ e => e.WF
   | .rangeFn name _ _ _ _ _ _ => plainFn name = true
   | .subq name _ _ _ _ e => plainFn name = true ∧ e.WF
   | .binMany _ on L inc _ _ many one =>
@@ -330,6 +416,8 @@ def FExpr.toExpr : FExpr → Expr
   | .or_ on L l r => .bin "or" (if on then .on else .ignoring) L l.toExpr r.toExpr
   | .histQ phi _ e => .call "histogram_quantile" [.num phi, e.toExpr]
   | .labelFn name dst extra _ e => .call name (e.toExpr :: .str dst :: extra.map .str)
+  | .aggSel op by_ L param _ e => .agg op (if by_ then .by_ else .without) L (some (.num param)) e.toExpr
+  | .countValues by_ L dst e => .agg "count_values" (if by_ then .by_ else .without) L (some (.str dst)) e.toExpr
   | .rangeFn name text rng _ _ _ _ => .call name [.mat text rng]
   | .subq name rng _ _ _ e => .call name [.sub e.toExpr rng]
   | .binMany op on L _ manyLeft _ many one =>
@@ -349,6 +437,12 @@ def FExpr.toV : FExpr → VExpr
   | .histQ _ f e => .agg (keyWithout ["le"]) f e.toV
   | .labelFn _ dst _ v e =>
     .fn (fun l x => some ((l.filter fun p => p.1 ≠ dst) ++ (match v l with | none => [] | some s => [(dst, s)]), x)) e.toV
+  | .aggSel _ by_ L _ keep e =>
+    .aggL (if by_ then keyBy L else keyWithout L) (fun _ ms => ms.filter (keep ms)) e.toV
+  | .countValues by_ L dst e =>
+    .aggL (if by_ then keyBy L else keyWithout L)
+      (fun k ms => (nub (ms.map (·.2))).map fun v =>
+        ((k.filter fun p => p.1 ≠ dst) ++ [(dst, toString v)], ((ms.filter fun m => m.2 = v).length : Int))) e.toV
   | .rangeFn _ _ _ p drop ts f => .overTime ts (if drop then dropName else id) f (.sel p)
   | .subq _ _ drop ts f e => .overTime ts (if drop then dropName else id) f e.toV
   | .binMany _ on L inc _ f many one =>
@@ -365,6 +459,8 @@ def FExpr.scopes : FExpr → List (List String × Bool)
   | .or_ on L l r => binScope on L :: (l.scopes ++ r.scopes)
   | .histQ _ _ e => (["le"], false) :: e.scopes
   | .labelFn _ _ _ _ e => e.scopes
+  | .aggSel _ by_ L _ _ e => (L, by_) :: e.scopes
+  | .countValues by_ L _ e => (L, by_) :: e.scopes
   | .rangeFn _ _ _ _ _ _ _ => []
   | .subq _ _ _ _ _ e => e.scopes
   | .binMany _ on L _ manyLeft _ many one =>
@@ -380,6 +476,8 @@ def FExpr.dyns : FExpr → List String
   | .or_ _ _ l r => l.dyns ++ r.dyns
   | .histQ _ _ e => e.dyns
   | .labelFn _ dst _ _ e => dst :: e.dyns
+  | .aggSel _ _ _ _ _ e => e.dyns
+  | .countValues _ _ dst e => dst :: e.dyns
   | .rangeFn _ _ _ _ _ _ _ => []
   | .subq _ _ _ _ _ e => e.dyns
   | .binMany _ _ _ _ manyLeft _ many one => if manyLeft then many.dyns ++ one.dyns else one.dyns ++ many.dyns
@@ -401,6 +499,8 @@ theorem isScalar_fragment : ∀ (e : FExpr), e.WF → isScalar e.toExpr = false
   | .histQ _ _ _, _ => by simp [FExpr.toExpr, isScalar]
   | .labelFn name _ _ _ _, hwf => by
     rcases hwf.1 with h | h <;> simp [FExpr.toExpr, isScalar, h]
+  | .aggSel _ _ _ _ _ _, _ => rfl
+  | .countValues _ _ _ _, _ => rfl
   | .rangeFn name _ _ _ _ _ _, hwf => by
     have hp : plainFn name = true := hwf
     simp only [plainFn, Bool.not_eq_true', Bool.or_eq_false_iff, decide_eq_false_iff_not] at hp
@@ -433,9 +533,9 @@ def walked (st : St) (e : FExpr) : St :=
   { st with an := foldScopes st.an e.scopes, dyn := st.dyn ++ e.dyns }
 
 theorem walk_bin (op : String) (on : Bool) (L : List String) (l r : FExpr) (hl : l.WF) (hr : r.WF)
-    (ihl : ∀ st : St, st.ok = true → walk st l.toExpr = walked st l)
-    (ihr : ∀ st : St, st.ok = true → walk st r.toExpr = walked st r)
-    (st : St) (hok : st.ok = true) :
+    (ihl : ∀ st : St, st.ok = true → st.cv = true → walk st l.toExpr = walked st l)
+    (ihr : ∀ st : St, st.ok = true → st.cv = true → walk st r.toExpr = walked st r)
+    (st : St) (hok : st.ok = true) (hcv : st.cv = true) :
     walk st (.bin op (if on then .on else .ignoring) L l.toExpr r.toExpr) =
       { st with an := foldScopes st.an (binScope on L :: (l.scopes ++ r.scopes)), dyn := st.dyn ++ (l.dyns ++ r.dyns) } := by
   have h1 := isScalar_fragment l hl
@@ -445,74 +545,92 @@ theorem walk_bin (op : String) (on : Bool) (L : List String) (l r : FExpr) (hl :
   have hsc : (if (if on = true then Match.on else Match.ignoring) == Match.on then L else L ++ ["__name__"]) = (binScope on L).1 ∧
       ((if on = true then Match.on else Match.ignoring) == Match.on) = (binScope on L).2 := by
     cases on <;> simp [binScope] <;> decide
-  rw [ihl _ (by simp [hok])]
+  rw [ihl _ (by simp [hok]) (by simp [hcv])]
   simp only [walked, hok, if_true]
-  rw [ihr _ (by simp [hok])]
+  rw [ihr _ (by simp [hok]) (by simp [hcv])]
   simp only [walked, foldScopes, List.foldl_cons, List.foldl_append, List.append_assoc]
   rw [hsc.1, hsc.2]
 
-theorem walk_fragment : ∀ (e : FExpr), e.WF → ∀ st : St, st.ok = true → walk st e.toExpr = walked st e
-  | .sel _ _, _, st, _ => by simp [FExpr.toExpr, walk, walked, FExpr.scopes, FExpr.dyns, foldScopes]
-  | .fn name _ _ e, hwf, st, hok => by
+theorem walk_fragment : ∀ (e : FExpr), e.WF → ∀ st : St, st.ok = true → st.cv = true → walk st e.toExpr = walked st e
+  | .sel _ _, _, st, _, _ => by simp [FExpr.toExpr, walk, walked, FExpr.scopes, FExpr.dyns, foldScopes]
+  | .fn name _ _ e, hwf, st, hok, hcv => by
     have hp := hwf.1
     simp only [plainFn, Bool.not_eq_true', Bool.or_eq_false_iff, decide_eq_false_iff_not] at hp
     obtain ⟨⟨⟨⟨⟨⟨⟨h1, h2⟩, h3⟩, h4⟩, h5⟩, h6⟩, _⟩, _⟩ := hp
     simp only [FExpr.toExpr, walk, hok, h1, h2, h3, h4, h5, h6, walkList, FExpr.scopes]
-    simp [walk_fragment e hwf.2 st hok, hok, walked, FExpr.scopes, FExpr.dyns]
-  | .aggBy op L _ e, hwf, st, hok => by
+    simp [walk_fragment e hwf.2 st hok hcv, hok, walked, FExpr.scopes, FExpr.dyns]
+  | .aggBy op L _ e, hwf, st, hok, hcv => by
     simp only [FExpr.toExpr, walk, hok, hwf.1]
     simp
-    rw [walk_fragment e hwf.2 _ (by simp [hok])]
+    rw [walk_fragment e hwf.2 _ (by simp [hok]) (by simp [hcv])]
     have : (Mode.by_ != Mode.without) = true := by decide
     simp [walked, foldScopes, this, FExpr.scopes, FExpr.dyns, hok]
-  | .aggWithout op L _ e, hwf, st, hok => by
+  | .aggWithout op L _ e, hwf, st, hok, hcv => by
     simp only [FExpr.toExpr, walk, hok, hwf.1]
     simp
-    rw [walk_fragment e hwf.2 _ (by simp [hok])]
+    rw [walk_fragment e hwf.2 _ (by simp [hok]) (by simp [hcv])]
     have : (Mode.without != Mode.without) = false := by decide
     simp [walked, foldScopes, this, FExpr.scopes, FExpr.dyns, hok]
-  | .bin op on L _ _ l r, hwf, st, hok => by
+  | .bin op on L _ _ l r, hwf, st, hok, hcv => by
     simp only [FExpr.toExpr, walked, FExpr.scopes, FExpr.dyns]
-    exact walk_bin op on L l r hwf.1 hwf.2 (walk_fragment l hwf.1) (walk_fragment r hwf.2) st hok
-  | .or_ on L l r, hwf, st, hok => by
+    exact walk_bin op on L l r hwf.1 hwf.2 (walk_fragment l hwf.1) (walk_fragment r hwf.2) st hok hcv
+  | .or_ on L l r, hwf, st, hok, hcv => by
     simp only [FExpr.toExpr, walked, FExpr.scopes, FExpr.dyns]
-    exact walk_bin "or" on L l r hwf.1 hwf.2 (walk_fragment l hwf.1) (walk_fragment r hwf.2) st hok
-  | .histQ phi _ e, hwf, st, hok => by
+    exact walk_bin "or" on L l r hwf.1 hwf.2 (walk_fragment l hwf.1) (walk_fragment r hwf.2) st hok hcv
+  | .histQ phi _ e, hwf, st, hok, hcv => by
     simp only [FExpr.toExpr, walk, hok]
     simp only [not_true_eq_false, if_false, String.reduceEq, or_self, if_true, walkList, walk]
-    rw [walk_fragment e hwf _ (by simp [hok])]
+    rw [walk_fragment e hwf _ (by simp [hok]) (by simp [hcv])]
     simp [walked, foldScopes, hok, FExpr.scopes, FExpr.dyns]
-  | .labelFn name dst extra _ e, hwf, st, hok => by
+  | .labelFn name dst extra _ e, hwf, st, hok, hcv => by
     have hname : name = "label_join" ∨ name = "label_replace" := hwf.1.symm
     simp only [FExpr.toExpr, walk, hok, hname, dstLabel]
     simp only [not_true_eq_false, if_false, if_true, walkList]
-    rw [walk_fragment e hwf.2 _ (by simp [hok])]
+    rw [walk_fragment e hwf.2 _ (by simp [hok]) (by simp [hcv])]
     simp only [walked, hok, if_true]
     have := walkList_strs { an := foldScopes st.an e.scopes, dyn := st.dyn ++ [dst] ++ e.dyns, ok := true, cv := st.cv } extra
     simp only [walk]
     rw [this]
     simp [FExpr.scopes, FExpr.dyns, List.append_assoc]
-  | .subq name _ _ _ _ e, hwf, st, hok => by
+  | .aggSel op by_ L param _ e, hwf, st, hok, hcv => by
+    simp only [FExpr.toExpr, walk, hok, hwf.1]
+    simp
+    rw [walk_fragment e hwf.2 _ (by simp [hok]) (by simp [hcv])]
+    cases by_
+    · have : (Mode.without != Mode.without) = false := by decide
+      simp [walked, foldScopes, this, FExpr.scopes, FExpr.dyns, hok, walk]
+    · have : (Mode.by_ != Mode.without) = true := by decide
+      simp [walked, foldScopes, this, FExpr.scopes, FExpr.dyns, hok, walk]
+  | .countValues by_ L dst e, hwf, st, hok, hcv => by
+    simp only [FExpr.toExpr, walk, hok, hcv, paramLabel]
+    simp
+    rw [walk_fragment e hwf _ (by simp [hok]) (by simp [hcv])]
+    cases by_
+    · have : (Mode.without != Mode.without) = false := by decide
+      simp [walked, foldScopes, this, FExpr.scopes, FExpr.dyns, hok, hcv, walk, List.append_assoc]
+    · have : (Mode.by_ != Mode.without) = true := by decide
+      simp [walked, foldScopes, this, FExpr.scopes, FExpr.dyns, hok, hcv, walk, List.append_assoc]
+  | .subq name _ _ _ _ e, hwf, st, hok, hcv => by
     have hp := hwf.1
     simp only [plainFn, Bool.not_eq_true', Bool.or_eq_false_iff, decide_eq_false_iff_not] at hp
     obtain ⟨⟨⟨⟨⟨⟨⟨h1, h2⟩, h3⟩, h4⟩, h5⟩, h6⟩, _⟩, _⟩ := hp
     simp only [FExpr.toExpr, walk, hok, h1, h2, h3, h4, h5, h6, walkList]
-    simp [walk_fragment e hwf.2 st hok, hok, walked, FExpr.scopes, FExpr.dyns]
-  | .rangeFn name _ _ _ _ _ _, hwf, st, hok => by
+    simp [walk_fragment e hwf.2 st hok hcv, hok, walked, FExpr.scopes, FExpr.dyns]
+  | .rangeFn name _ _ _ _ _ _, hwf, st, hok, hcv => by
     have hp : plainFn name = true := hwf
     simp only [plainFn, Bool.not_eq_true', Bool.or_eq_false_iff, decide_eq_false_iff_not] at hp
     obtain ⟨⟨⟨⟨⟨⟨⟨h1, h2⟩, h3⟩, h4⟩, h5⟩, h6⟩, _⟩, _⟩ := hp
     simp only [FExpr.toExpr, walk, hok, h1, h2, h3, h4, h5, h6, walkList]
     simp only [walked, FExpr.scopes, FExpr.dyns, foldScopes, List.foldl_nil, List.append_nil, not_true_eq_false,
       if_false, or_self, if_true]
-  | .binMany op on L inc manyLeft _ many one, hwf, st, hok => by
+  | .binMany op on L inc manyLeft _ many one, hwf, st, hok, hcv => by
     cases manyLeft with
     | true =>
       simp only [FExpr.toExpr, walked, FExpr.scopes, FExpr.dyns, if_true]
-      exact walk_bin op on L many one hwf.2.1 hwf.2.2 (walk_fragment many hwf.2.1) (walk_fragment one hwf.2.2) st hok
+      exact walk_bin op on L many one hwf.2.1 hwf.2.2 (walk_fragment many hwf.2.1) (walk_fragment one hwf.2.2) st hok hcv
     | false =>
       simp only [FExpr.toExpr, walked, FExpr.scopes, FExpr.dyns, Bool.false_eq_true, if_false]
-      exact walk_bin op on L one many hwf.2.2 hwf.2.1 (walk_fragment one hwf.2.2) (walk_fragment many hwf.2.1) st hok
+      exact walk_bin op on L one many hwf.2.2 hwf.2.1 (walk_fragment one hwf.2.2) (walk_fragment many hwf.2.1) st hok hcv
 
 /-- every scope the analyzer applies: the grouping scopes, then the dynamic labels as one
     `without` scope when there are any -/
@@ -522,7 +640,7 @@ def FExpr.allScopes (e : FExpr) : List (List String × Bool) :=
 theorem analyze_fragment (e : FExpr) (hwf : e.WF) :
     analyze e.toExpr = foldScopes ⟨none, false⟩ e.allScopes := by
   unfold analyze analyzeWith FExpr.allScopes
-  rw [walk_fragment e hwf _ rfl]
+  rw [walk_fragment e hwf _ rfl rfl]
   simp only [walked, List.nil_append]
   by_cases hd : e.dyns.isEmpty = true
   · simp [hd, foldScopes]
@@ -724,6 +842,11 @@ theorem proj_sigOf {K : List String} {by_ on : Bool} {L : List String} (h : BinO
     | true => simp only [if_true] at h; exact proj_keyWithout_by h.1 h.2 l
     | false => simp only [Bool.false_eq_true, if_false] at h; exact proj_keyWithout_without h.1 h.2 l
 
+/-- the grouping of an aggregation (`g` = `by`, else `without`) keeps every hashed label -/
+def KeyOK (K : List String) (by_ : Bool) (g : Bool) (L : List String) : Prop :=
+  if g then (by_ = true ∧ ∀ k ∈ K, k ∈ L)
+  else (NameSafe K by_ ∧ if by_ then ∀ k ∈ K, k ∉ L else ∀ x ∈ L, x ∈ K)
+
 /-- what the sharding labels must satisfy at every node of the fragment -/
 def Scoped (K : List String) (by_ : Bool) : FExpr → Prop
   | .sel _ _ => True
@@ -736,6 +859,8 @@ def Scoped (K : List String) (by_ : Bool) : FExpr → Prop
   | .histQ _ _ e =>
     (NameSafe K by_ ∧ if by_ then ∀ k ∈ K, k ∉ ["le"] else ∀ x ∈ ["le"], x ∈ K) ∧ Scoped K by_ e
   | .labelFn _ dst _ _ e => shardByLabel K dst by_ = false ∧ Scoped K by_ e
+  | .aggSel _ g L _ _ e => KeyOK K by_ g L ∧ Scoped K by_ e
+  | .countValues g L dst e => (KeyOK K by_ g L ∧ shardByLabel K dst by_ = false) ∧ Scoped K by_ e
   | .rangeFn _ _ _ _ drop _ _ => drop = true → NameSafe K by_
   | .subq _ _ drop _ _ e => (drop = true → NameSafe K by_) ∧ Scoped K by_ e
   | .binMany _ on L inc _ _ many one =>
@@ -809,6 +934,25 @@ theorem compat_histQ (hash : Labels → Nat) (total : Nat) (K : List String) (by
   | true => rw [proj_keyWithout_by (by simpa using hk) (by simpa [NameSafe] using hn)]
   | false => rw [proj_keyWithout_without (by simpa using hk) (by simpa [NameSafe] using hn)]
 
+theorem keyOK_sh (hash : Labels → Nat) (total : Nat) {K : List String} {by_ g : Bool} {L : List String}
+    (h : KeyOK K by_ g L) (l : Labels) :
+    shReal hash total K by_ ((if g then keyBy L else keyWithout L) l) = shReal hash total K by_ l := by
+  unfold KeyOK at h
+  cases g with
+  | true =>
+    simp only [if_true] at h ⊢
+    obtain ⟨hb, hk⟩ := h
+    subst hb
+    unfold shReal
+    rw [proj_keyBy hk]
+  | false =>
+    simp only [Bool.false_eq_true, if_false] at h ⊢
+    obtain ⟨hn, hk⟩ := h
+    unfold shReal
+    cases by_ with
+    | true => rw [proj_keyWithout_by (by simpa using hk) (by simpa [NameSafe] using hn)]
+    | false => rw [proj_keyWithout_without (by simpa using hk) (by simpa [NameSafe] using hn)]
+
 theorem compat_of_scoped (hash : Labels → Nat) (total : Nat) (K : List String) (by_ : Bool) :
     ∀ e : FExpr, Scoped K by_ e → Compat (shReal hash total K by_) e.toV
   | .sel _ _, _ => trivial
@@ -871,6 +1015,18 @@ theorem compat_of_scoped (hash : Labels → Nat) (total : Nat) (K : List String)
       | none => simp at hs; subst hs; rfl
       | some _ => simp at hs
   | .histQ _ f e, h => ⟨compat_histQ hash total K by_ h.1, compat_of_scoped hash total K by_ e h.2⟩
+  | .aggSel _ g L _ keep e, h => by
+    refine ⟨keyOK_sh hash total h.1, ?_, compat_of_scoped hash total K by_ e h.2⟩
+    intro k ms x hms hx
+    have hxm : x ∈ ms := (List.mem_filter.mp hx).1
+    rw [← hms x hxm, keyOK_sh hash total h.1]
+  | .countValues g L dst e, h => by
+    refine ⟨keyOK_sh hash total h.1.1, ?_, compat_of_scoped hash total K by_ e h.2⟩
+    intro k ms x _ hx
+    obtain ⟨v, _, hv⟩ := List.mem_map.mp hx
+    subst hv
+    unfold shReal
+    rw [proj_setLabel h.1.2 k [(dst, toString v)] (by simp)]
   | .rangeFn _ _ _ _ drop _ f, h => by
     refine ⟨?_, trivial⟩
     intro l
@@ -961,6 +1117,31 @@ theorem scopeInv_sub {K : List String} {by_ : Bool} {seen sub : List (List Strin
   | true => simp only [if_true] at h ⊢; exact fun sc hsc => h sc (hsub sc hsc)
   | false => simp only [Bool.false_eq_true, if_false] at h ⊢; exact fun sc hsc => h sc (hsub sc hsc)
 
+theorem keyOK_of_inv {K : List String} {by_ g : Bool} {L : List String} {rest : List (List String × Bool)}
+    (hn : NameSafe K by_) (h : ScopeInv ⟨some K, by_⟩ ((L, g) :: rest)) : KeyOK K by_ g L := by
+  unfold ScopeInv at h
+  unfold KeyOK
+  cases g with
+  | true =>
+    simp only [if_true]
+    cases by_ with
+    | true =>
+      simp only [if_true] at h
+      exact ⟨rfl, (h (L, true) (by simp)).1 rfl⟩
+    | false =>
+      simp only [Bool.false_eq_true, if_false] at h
+      have := (h (L, true) (by simp)).1
+      cases this
+  | false =>
+    simp only [Bool.false_eq_true, if_false]
+    cases by_ with
+    | true =>
+      simp only [if_true] at h
+      exact ⟨hn, by simpa using (h (L, false) (by simp)).2 rfl⟩
+    | false =>
+      simp only [Bool.false_eq_true, if_false] at h
+      exact ⟨hn, by simpa using (h (L, false) (by simp)).2⟩
+
 theorem scoped_of_inv (K : List String) (by_ : Bool) (hn : NameSafe K by_) :
     ∀ e : FExpr, e.WF → (∀ d ∈ e.dyns, shardByLabel K d by_ = false) → ScopeInv ⟨some K, by_⟩ e.scopes → Scoped K by_ e
   | .sel _ _, _, _, _ => trivial
@@ -1008,6 +1189,15 @@ theorem scoped_of_inv (K : List String) (by_ : Bool) (hn : NameSafe K by_) :
         (scopeInv_sub h (fun sc hsc => List.mem_cons_of_mem _ (List.mem_append_left _ hsc))),
       scoped_of_inv K by_ hn r hwf.2 (fun d hd' => hd d (List.mem_append_right _ hd'))
         (scopeInv_sub h (fun sc hsc => List.mem_cons_of_mem _ (List.mem_append_right _ hsc)))⟩
+  | .aggSel _ g L _ _ e, hwf, hd, h => by
+    simp only [FExpr.scopes] at h
+    exact ⟨keyOK_of_inv hn h, scoped_of_inv K by_ hn e hwf.2 hd (scopeInv_sub h (fun sc hsc => List.mem_cons_of_mem _ hsc))⟩
+  | .countValues g L dst e, hwf, hd, h => by
+    simp only [FExpr.scopes] at h
+    simp only [FExpr.dyns] at hd
+    exact ⟨⟨keyOK_of_inv hn h, hd dst (by simp)⟩,
+      scoped_of_inv K by_ hn e hwf (fun d hd' => hd d (List.mem_cons_of_mem _ hd'))
+        (scopeInv_sub h (fun sc hsc => List.mem_cons_of_mem _ hsc))⟩
   | .histQ _ _ e, hwf, hd, h => by
     unfold ScopeInv at h
     simp only [FExpr.scopes] at h
